@@ -656,12 +656,10 @@ fn check_node(n: &FNode, parent: Option<&FNode>, lay: &Layout, mode: Mode, out: 
     }
     let Some(l) = &n.listing else { return };
     if let Some((b, o)) = l.nonzero_after_end {
-        if mode == Mode::Live {
-            out.push(v("I5-after-end", format!("{} has a non-zero slot after the end marker at block {} offset {}", n.path, b, o)));
-        } else {
-            // crash mode: only a *live-looking* slot after the end marker is not
-            // visible to readers, so it is harmless; not reported
-        }
+        // also after a power cut: stale bytes behind the end marker of a reachable directory
+        // become entries as soon as the directory fills up to them
+        out.push(v("I5-after-end", format!("{} has a non-zero slot after the end marker at block {} offset {}", n.path, b, o)));
+        let _ = mode;
     }
     // stale pattern exposure
     for s in &l.slots {
